@@ -92,6 +92,9 @@ type Scenario struct {
 // carries a snapshot (before any of its sub-steps ran). {"k":"_block","n":N} / {"k":"_unblock","n":N}
 // make _settle skip deliveries to and from node N (a partition); {"k":"_dropnet","n":N} loses every
 // message to or from N that is in the network.
+// With "keep":N the steps of node N inside _settle use NoMore (its application is slow: nothing is
+// handed out). {"k":"_deliver","n":to,"x":from,"m":type} delivers every not-yet-delivered message
+// from -> to of that raftpb type (0 = any type) without stepping anybody.
 // Macros are expanded into concrete events (returned for the record).
 func RunScenario(sc Scenario, dir string, sink func(*Record)) []Event {
 	opt := sc.Opt
@@ -131,6 +134,19 @@ func RunScenario(sc Scenario, dir string, sink func(*Record)) []Event {
 			}
 			continue
 		}
+		if ev.K == "_deliver" {
+			for _, mid := range append([]int(nil), c.NetIDs()...) {
+				m, _ := c.Msg(mid)
+				if delivered[mid] || m.To != ev.N || (ev.X != 0 && m.From != ev.X) || (ev.M != 0 && int(m.Type) != ev.M) {
+					continue
+				}
+				delivered[mid] = true
+				if c.View(m.To).Alive {
+					do(Event{K: "deliver", N: m.To, M: mid})
+				}
+			}
+			continue
+		}
 		if ev.K == "_unblock" {
 			delete(blocked, ev.N)
 			continue
@@ -155,7 +171,7 @@ func RunScenario(sc Scenario, dir string, sink func(*Record)) []Event {
 					continue
 				}
 				if !v.InFlight {
-					rec := do(Event{K: "step", N: id, Rnd: ev.Rnd})
+					rec := do(Event{K: "step", N: id, Rnd: ev.Rnd, NoMore: ev.Keep != 0 && ev.Keep == id})
 					if rec.Rd != nil {
 						progress = true
 						if ev.X == id && rec.Rd.Snap != nil {
